@@ -139,8 +139,9 @@ func (ex *exec) injectiveKey(comps []iface) value {
 		// kv == k.key  <=>  component lists equal
 		ex.assertPC(tt.Eq(eq, c))
 	}
-	// the hex string is never empty and never a UUID (length 64+)
+	// the hex string is never empty and never a UUID: it ends with the 64 hex digits of a SHA-256 digest
 	ex.assertPC(tt.Not(ex.uuidTerm(kv)))
+	ex.assertPC(tt.lenCmp(">=", kv, 64))
 	ex.gobKeys = append(ex.gobKeys, gobKey{kv, comps})
 	return sym{kv, types.String}
 }
